@@ -13,7 +13,7 @@ PROPS = {
         harnesses=["c18_algo", "c18_grid"],
         exhaustive=["c18_algo"],
         quick=dict(shards=8, cases=60000, min_nontrivial=1000),
-        thorough=dict(shards=8, cases=1500000, fuzz_s=240, fuzz_jobs=8, fuzz_max_len=256, min_nontrivial=1000),
+        thorough=dict(shards=8, cases=400000, fuzz_s=240, fuzz_jobs=8, fuzz_max_len=256, min_nontrivial=1000),
         assumptions=COMMON_ASSUME + [
             "inputs respect the functions' documented preconditions (sorted ranges for searches, "
             "strictly increasing non-uniform grids, queries inside [front, back)); NaN is never generated",
